@@ -9,7 +9,7 @@ META = dict(
                'declared operation algebra.',
     level_note='Trusted: translator, shims, CBMC; interface contracts of the model virtuals (any value may be returned); polygon test and depth '
                'surfaces are stubs here (C04/C07/C11). Velocity is specified to restart from zero in every covering feature, as the code does.',
-    scope='ContinentalPlate/OceanicPlate/MantleLayer::properties; World::properties feature loop (shared with C01); apply_operation; uniform composition',
+    scope='ContinentalPlate/OceanicPlate/MantleLayer::properties; World::properties feature loop (shared with C01); apply_operation; uniform composition of all six feature families',
     not_covered=['Plume, SubductingPlate and Fault properties() (geometry-dependent parts, see C04/C06)', 'random models'],
     enforced_elsewhere={'grains_ctor': 'C02/grains_ctor', 'grains_unroll_into': 'C02/grains_unroll'},
 )
@@ -125,16 +125,22 @@ UNITS.append(dict(
                      '__CPROVER_decreases(number_of_grains - i_grain)'),
     }))
 
-for fam, fdir in FAMILIES:
+for fam, fdir, variant in [(f, d, None) for f, d in FAMILIES] + [('Plume', 'plume', 'VARIANT_PLUME'), ('SubductingPlate', 'subducting_plate', 'VARIANT_DIST'), ('Fault', 'fault', 'VARIANT_DIST')]:
     fn = 'Features_%sModels_Composition_Uniform_get_composition' % fam
+    dd = {'FAM': fam, 'MAXP': 4, 'WB_VEC_CAP': 2, 'WB_CAP_vec_uint': 4, 'WB_CAP_vec_double': 4}
+    if variant:
+        dd[variant] = 1
+    if fam == 'Fault':
+        dd['IS_FAULT'] = 1
+    surf = [] if variant else ['Objects_Surface_local_value', 'Objects_NaturalCoordinate_get_surface_point']
     UNITS.append(dict(
         name='%s_C_uniform' % fdir, enforce=fn, contracts='c02_composition_uniform.c', harness='h_composition_uniform',
         targets=[dict(tu='source/world_builder/features/%s_models/composition/uniform.cc' % fdir,
                       qual='WorldBuilder::Features::%sModels::Composition::Uniform::get_composition' % fam)],
-        stub=['Objects_Surface_local_value', 'Objects_NaturalCoordinate_get_surface_point'],
-        nothrow=['Objects_NaturalCoordinate_get_surface_point'],
-        replace=['Objects_Surface_local_value', 'Objects_NaturalCoordinate_get_surface_point'],
-        defines={'FAM': fam, 'MAXP': 4, 'WB_VEC_CAP': 2, 'WB_CAP_vec_uint': 4, 'WB_CAP_vec_double': 4},
+        stub=surf,
+        nothrow=['Objects_NaturalCoordinate_get_surface_point'] if surf else [],
+        replace=surf,
+        defines=dd,
         defines_thorough={'MAXP': 16, 'WB_CAP_vec_uint': 16, 'WB_CAP_vec_double': 16},
         expect_fail=['REACHABILITY-GUARD'], outline_fp='all',
         canaries=[(r'operation == E_Operations_REPLACE\)', 'operation == E_Operations_REPLACE_DEFINED_ONLY)', 'replace-defined-only clears unlisted compositions instead of replace')],
